@@ -101,6 +101,9 @@ func verifC10Router(globals int) (*Router, *[]string) {
 		// what outlived the earlier requests writes to what it was given, while this request is in flight
 		for _, cp := range verifC10Kept {
 			cp.Set("job", "done")
+			// the copy's own response side: recording a status there touches no request in flight
+			cp.Resp.WriteHeader(599)
+			cp.SetStatus(598)
 		}
 		for _, d := range verifC10KeptData {
 			if d != nil {
